@@ -1077,6 +1077,19 @@ class LangServer:
                 break
         return refs, ref_objs
 
+    @staticmethod
+    def _nesting_depth(def_obj) -> int:
+        """Number of scopes around an object, an interface block does not count:
+        the procedures it declares belong to the scope that contains the block"""
+        depth = def_obj.FQSN.count("::")
+        if (
+            depth > 0
+            and def_obj.parent is not None
+            and def_obj.parent.get_type() == INTERFACE_TYPE_ID
+        ):
+            depth -= 1
+        return depth
+
     def serve_references(self, request):
         # Get parameters from request
         params: dict = request["params"]
@@ -1097,7 +1110,7 @@ class LangServer:
         # Determine global accessibility and type membership
         restrict_file = None
         type_mem = False
-        if def_obj.FQSN.count(":") > 2:
+        if self._nesting_depth(def_obj) > 1:
             if def_obj.parent is not None and def_obj.parent.get_type() == CLASS_TYPE_ID:
                 type_mem = True
             else:
@@ -1249,7 +1262,7 @@ class LangServer:
         # Determine global accesibility and type membership
         restrict_file = None
         type_mem = False
-        if def_obj.FQSN.count(":") > 2:
+        if self._nesting_depth(def_obj) > 1:
             if def_obj.parent is not None and def_obj.parent.get_type() == CLASS_TYPE_ID:
                 type_mem = True
             else:
